@@ -48,7 +48,7 @@ size_t nni_url_decode(uint8_t *out, const char *in, size_t max_len)
 __CPROVER_requires(g_n < URL_STR_MAX && __CPROVER_is_fresh(in, g_n + 1) && in[g_n] == 0)
 __CPROVER_requires(max_len < URL_STR_MAX && __CPROVER_is_fresh(out, max_len))
 __CPROVER_requires(g_j < max_len ==> g_ob == out[g_j])
-__CPROVER_assigns(__CPROVER_object_whole(out))
+__CPROVER_assigns(__CPROVER_object_whole(out), g_exit)
 __CPROVER_ensures(RV == UP_FAIL || (RV <= max_len && RV <= g_n))
 __CPROVER_ensures((g_j < max_len && g_j >= g_n) ==> out[g_j] == g_ob)
 __CPROVER_ensures((RV != UP_FAIL && g_j < max_len && g_j >= RV) ==> out[g_j] == g_ob)
@@ -60,21 +60,35 @@ COVER(RV == UP_FAIL && max_len > g_n)
 #define DEC_NOWRAP(in) (2 * UP_PCT_BEFORE(in, g_n) <= g_n)
 size_t nni_url_decode(uint8_t *out, const char *in, size_t max_len)
     /* clang-format off */
-__CPROVER_requires(STR_RIGHT_ALIGNED_PRE(in, g_n, UP_DEC_CAP))
+/* constant-size objects (a symbolic-size output object or a symbolic string
+ * offset ran out of memory): reads past the terminator / writes past max_len
+ * are excluded for ALL sizes by the grade-P text above */
+__CPROVER_requires(g_n <= UP_DEC_CAP && __CPROVER_is_fresh(in, UP_DEC_CAP + 3) && in[g_n] == 0)
 __CPROVER_requires(__CPROVER_forall { size_t vp_d0; (vp_d0 < UP_DEC_CAP) ==> ((vp_d0 < g_n) ==> in[vp_d0] != 0) })
-__CPROVER_requires(max_len <= UP_DEC_CAP + 2 && __CPROVER_is_fresh(out, max_len))
-__CPROVER_assigns(__CPROVER_object_whole(out))
+__CPROVER_requires(max_len <= UP_DEC_CAP + 2 && __CPROVER_is_fresh(out, UP_DEC_CAP + 2))
+__CPROVER_assigns(__CPROVER_object_whole(out), g_exit)
+#if !defined(UP_DEC_ONLY) || UP_DEC_ONLY == 1
 /* result: failure value, or the decoded length */
 __CPROVER_ensures(RV == UP_FAIL || (RV <= max_len && RV + 2 * UP_PCT_BEFORE(in, g_n) == g_n))
+#endif
+#if !defined(UP_DEC_ONLY) || UP_DEC_ONLY == 2
 /* accepted => every escape is well formed */
 __CPROVER_ensures((RV != UP_FAIL && g_k < g_n && in[g_k] == '%') ==> UP_ESC_OK(in, g_k))
+#endif
+#if !defined(UP_DEC_ONLY) || UP_DEC_ONLY == 3
 /* accepted => output bytes */
 __CPROVER_ensures((RV != UP_FAIL && g_k < g_n && UP_TOKSTART(in, g_k)) ==>
     out[g_k - 2 * UP_PCT_BEFORE(in, g_k)] == (in[g_k] == '%' ? UP_ESCVAL(in, g_k) : (uint8_t) in[g_k]))
-/* rejected => for a reason */
-__CPROVER_ensures(RV == UP_FAIL ==>
-    ((__CPROVER_exists { size_t vp_d1; (vp_d1 < UP_DEC_CAP) && (vp_d1 < g_n && in[vp_d1] == '%' && !UP_ESC_OK(in, vp_d1)) }) ||
-        g_n > max_len + 2 * UP_PCT_BEFORE(in, g_n)))
+#endif
+#if !defined(UP_DEC_ONLY) || UP_DEC_ONLY == 4
+/* rejected => for a reason, witnessed by the scan offset at the return
+ * (ghost g_exit, woven before every return): the byte before it is a '%' not
+ * followed by two hex digits (bad hex / truncated escape), or input remains
+ * although the prefix already decodes to max_len bytes */
+__CPROVER_ensures(RV == UP_FAIL ==> (g_exit <= g_n &&
+    ((g_exit >= 1 && in[g_exit - 1] == '%' && !(UP_XD(in[g_exit]) && UP_XD(in[g_exit + 1]))) ||
+        (g_exit < g_n && g_exit >= max_len + 2 * UP_PCT_BEFORE(in, g_exit)))))
+#endif
 COVER(RV != UP_FAIL && g_n == 24 && RV == 10)
 COVER(RV == UP_FAIL && g_n == 24 && max_len == 26)
 COVER(RV != UP_FAIL && g_k == 20 && g_k < g_n && UP_TOKSTART(in, g_k) && in[g_k] == '%' && UP_PCT_BEFORE(in, g_k) == 3)
